@@ -84,7 +84,7 @@ def step(draw):
                  arg=draw(st.sampled_from([0, 50, 300])))
     elif op == "combine":
         # merge / flatten of an overlapping, mixed-strand table with a caller-supplied combiner dict
-        s.update(fn=draw(st.sampled_from(["merge", "merge_stranded", "merge_bp", "flatten"])), which=draw(st.sampled_from(["cmb_gene", "cmb_val"])))
+        s.update(fn=draw(st.sampled_from(["merge", "merge_stranded", "merge_bp", "flatten"])), which=draw(st.sampled_from(["cmb_gene", "cmb_val", "none"])))
     elif op == "reseed":
         s.update(k=draw(st.integers(0, 2 ** 31)))
     return s
@@ -287,7 +287,7 @@ def execute(s, ws, procs_override=None):
             return b.subdivide(5000 + s["arg"], s["arg"])
         return a.resize_ranges(s["arg"])
     if op == "combine":
-        t, cmb = ws["ivals"], ws[s["which"]]
+        t, cmb = ws["ivals"], (None if s["which"] == "none" else ws[s["which"]])
         if s["fn"] == "merge":
             return t.merge(combine=cmb)
         if s["fn"] == "merge_stranded":
@@ -355,11 +355,32 @@ def pristine(seed):
     return _PRISTINE[seed]
 
 
+def module_state():
+    """repr of every module-level dict / list / set of cnvlib and skgenome (constants, default tables): a step that
+    changes one of them makes later results depend on the history without touching any argument (seeded change C10n
+    kept the default column combiners in a module constant and overwrote an entry in the stranded branch)."""
+    import sys
+
+    out = {}
+    for name, mod in list(sys.modules.items()):
+        if mod is None or not (name == "cnvlib" or name.startswith("cnvlib.") or name == "skgenome" or name.startswith("skgenome.")):
+            continue
+        for attr, val in list(vars(mod).items()):
+            if attr.startswith("__") or not isinstance(val, (dict, list, set)):
+                continue
+            try:
+                out[f"{name}.{attr}"] = repr(sorted(val.items(), key=repr) if isinstance(val, dict) else sorted(val, key=repr) if isinstance(val, set) else val)
+            except Exception:  # noqa: BLE001
+                continue
+    return out
+
+
 def check_case(case):
     out = []
     if case["kind"] == "writes":
         return _check_writes(case)
     base = pristine(case["seed"])
+    mods_before = module_state()
     base_snap = snapshot(base)
     ws = copy.deepcopy(base)
     first = {}
@@ -391,6 +412,13 @@ def check_case(case):
             out.append({"clause": f"result-depends-on-history/rng/workers:{s['op']}", "detail": f"{label}: result differs from a fresh single-process "
                         f"recomputation on pristine arguments ({why}); history {case['steps']}"})
         if out:
+            break
+    mods_after = module_state()
+    for k in mods_before:
+        if k in mods_after and mods_after[k] != mods_before[k]:
+            out.append({"clause": "module-state-modified", "detail": f"{k} changed during the history {case['steps']}: "
+                        f"{mods_before[k][:160]} -> {mods_after[k][:160]}"})
+            # put nothing back: the next case starts from whatever the library left, as a user's session would
             break
     if snapshot(base) != base_snap:
         out.append({"clause": "pristine-modified", "detail": "the pristine workspace itself changed (deep copies share state?)"})
